@@ -36,7 +36,13 @@ struct ConcRun {
     struct TaskOut { std::vector<std::string> digests; uint64_t stream_requests = 0; std::string err; };
     ConcRun(RunEnv& e, const Plan& p) : env(e), R(*e.rep), view(e.view), plan(p) {}
 
-    static jv_attrs mk_attrs(jv_attr* store, size_t n) { jv_attrs a; a.a = store; a.n = n; a.omit_all = 0; a.is_null = 0; return a; }
+    void* nat_asc[4][3] = {{nullptr}}; void* nat_desc = nullptr;   // the same lists in the library's own format, in the sealed arena
+    jv_attrs mk_attrs(jv_attr* store, size_t n) {
+        jv_attrs a; a.a = store; a.n = n; a.omit_all = 0; a.is_null = 0; a.native = nullptr;
+        for (int v = 0; v < 4; v++) if (store == sh_at[v] && n >= 1 && n <= 3) a.native = nat_asc[v][n - 1];
+        if (store == sh_desc && n == 3) a.native = nat_desc;
+        return a;
+    }
     static void set_attr(jv_attr& a, uint32_t idx, uint64_t v) { memset(&a, 0, sizeof(a)); a.idx = idx; memcpy(a.id, &v, 8); }
 
     void build_shared() {
@@ -68,6 +74,8 @@ struct ConcRun {
         tl_stream = nullptr; tl_hash = nullptr;
         for (int v4 = 0; v4 < 4; v4++) { sh_at[v4] = (jv_attr*) sh.take(3 * sizeof(jv_attr)); set_attr(sh_at[v4][0], 0, 5); set_attr(sh_at[v4][1], 1, 7 + (uint64_t) v4); set_attr(sh_at[v4][2], 2, 9); }
         sh_desc = (jv_attr*) sh.take(3 * sizeof(jv_attr)); set_attr(sh_desc[0], 2, 9); set_attr(sh_desc[1], 1, 7); set_attr(sh_desc[2], 0, 5);
+        for (int v4 = 0; v4 < 4; v4++) for (size_t n = 1; n <= 3; n++) { jv_attrs t; t.a = sh_at[v4]; t.n = n; t.omit_all = 0; t.is_null = 0; t.native = nullptr; void* m = sh.take(R.jv_wk_native_list_bytes(view, n)); R.jv_wk_native_list_build(view, m, &t); nat_asc[v4][n - 1] = m; }
+        { jv_attrs t; t.a = sh_desc; t.n = 3; t.omit_all = 0; t.is_null = 0; t.native = nullptr; void* m = sh.take(R.jv_wk_native_list_bytes(view, 3)); R.jv_wk_native_list_build(view, m, &t); nat_desc = m; }
         if (plan.c("reload", 0)) {
             // the parties restarted: every shared object was reloaded from its durable (compressed where there is a choice) bytes, as a
             // deployment does, so whatever unmarshal leaves to be filled in lazily would be filled in by the first concurrent caller
